@@ -103,11 +103,11 @@ def c08(A):
             if kind == "PUBLISH" and len(gaps) >= 2:
                 o.dec("gap_pairs", len(gaps) - 1)
                 for (g1, x1, y1), (g2, x2, y2) in zip(gaps, gaps[1:]):
-                    if g2 < g1 - 1e-9:
+                    if g2 < g1 - 4e-6:
                         # is it only the jitter?  (gap = deterministic part + recorded draw)
                         d1 = x1.get("draw") or 0.0
                         d2 = x2.get("draw") or 0.0
-                        det_ok = (g2 - d2) >= (g1 - d1) - 1e-9
+                        det_ok = (g2 - d2) >= (g1 - d1) - 4e-6
                         f = c_factor(A, c, x1)
                         sub = "jitter-only" if det_ok else ("factor<1" if f is not None and f < 1 else "deterministic")
                         o.bad("publish-gap-shrinks/%s" % sub,
